@@ -158,6 +158,20 @@ def gen_cases(rng, tier):
         else:
             continue
         cases.append({'world': world, 'dm': dm, 'op': op})
+    # money in two currencies with a converter registered: the converted operand must
+    # NOT be rounded before the sum is (one rounding)
+    for _ in range(60 if tier == 'quick' else 900):
+        rate = rng.choice(['3/2', '5/4', '4/5', '1305/10', '7/8'])
+        term = rng.choice(['USD', 'JPY', 'BHD'])
+        world = {'currencies': ['EUR', term]}
+        views = W.Views(world)
+        qt, qb = views.units[term]['quantum'], views.units['EUR']['quantum']
+        a = rng.choice([0, 1, -1, 3, -6, 25, 1000]) * qt
+        b = rng.choice([1, -1, 2, 3, -3, 5, 7, -7, 11, 333]) * qb
+        cases.append({'world': world, 'dm': rng.choice(W.MODES),
+                      'money_conv': {'base': 'EUR', 'rates': [[term, rate]]},
+                      'op': {'o': rng.choice(['add', 'sub']), 'x': ['q', _kind(rng, a), term],
+                             'y': ['q', _kind(rng, b), 'EUR']}})
     # double-rounding regression family (F11): result type quantized, operand type not
     for _ in range(60 if tier == 'quick' else 600):
         hf = rng.choice(['1/2', '2/5', '3/10', '7/4', '1/3'])
@@ -251,10 +265,14 @@ def oracle(case, r):
         exact, sym = F(op['v']), op['u']
     elif o in ('add', 'sub'):
         ux, uy = views.units[op['x'][2]], views.units[op['y'][2]]
-        if ux['scale'] is None and op['x'][2] != op['y'][2]:
-            return None
         a, b = F(r['ops'][0]['amt']), F(r['ops'][1]['amt'])
-        bb = b if op['x'][2] == op['y'][2] else b * uy['scale'] / ux['scale']
+        mc = case.get('money_conv')
+        if mc and op['y'][2] == mc['base'] and op['x'][2] in dict(mc['rates']):
+            bb = b * F(dict(mc['rates'])[op['x'][2]])
+        elif ux['scale'] is None and op['x'][2] != op['y'][2]:
+            return None
+        else:
+            bb = b if op['x'][2] == op['y'][2] else b * uy['scale'] / ux['scale']
         exact, sym = (a + bb if o == 'add' else a - bb), op['x'][2]
     elif o in ('neg', 'abs'):
         a = F(r['ops'][0]['amt'])
